@@ -177,7 +177,8 @@ def discovered_shared(min_threads=2):
     out = {}
     for n, d in DISCOVERED.items():
         if len(d["threads"]) >= min_threads and d["stored_by"]:
-            out[n] = {"threads": sorted(d["threads"]), "stored_by": sorted(d["stored_by"]), "lines": sorted(d["lines"])[:6]}
+            out[n] = {"threads": sorted(d["threads"]), "stored_by": sorted(d["stored_by"]), "lines": sorted(d["lines"])[:6],
+                      "files": sorted({l.split(":")[0] for l in d["lines"]})}
     return out
 
 
